@@ -34,6 +34,8 @@ var wanted = []string{
 	"OCRAInput.Validate",
 	"deriveRFC6287", "validateRFC6287", "GenerateOCRA", "ValidateOCRA",
 	"DigitsFromStr", "AlgorithmFromStr",
+	"parseTimeGranularity", "parseCryptoFunction", "parseDataInputTokens", "parseRawSuite",
+	"NewRawSuite", "NewSuite", "IsKnownSuite", "SuiteConfigFromRaws",
 }
 
 type tr struct {
@@ -58,6 +60,8 @@ type fnInfo struct {
 	needsFuel bool
 	pools     []string // pool oracle parameters, in order
 	resT      string
+	inout     []int // indexes of in/out (pointer) parameters among the arguments
+	nres      int
 }
 
 type unsupported struct{ msg string }
@@ -137,7 +141,7 @@ func main() {
 	t.harvest()
 	var b strings.Builder
 	b.WriteString("(* GENERATED from the Go sources of " + repo + " by /verif/tools/gen_model — do not edit. *)\n")
-	b.WriteString("From Coq Require Import String.\nFrom OtpV Require Import Prelude Sha GoSem Errors Decoder Otp Ocra Suite.\nOpen Scope N_scope.\n\n")
+	b.WriteString("From Coq Require Import String.\nFrom OtpV Require Import Prelude Sha GoSem Errors Decoder Otp Ocra Utils Suite.\nOpen Scope N_scope.\n\n")
 	b.WriteString(t.globals())
 	for _, q := range wanted {
 		t.translate(q)
@@ -222,5 +226,20 @@ func (t *tr) translate(q string) {
 	fc := newFctx(t, q)
 	text := fc.function(recv, ftype, body)
 	t.out = append(t.out, text)
-	t.done[q] = &fnInfo{name: coqName(q), needsFuel: fc.needsFuel, pools: fc.poolList(), resT: fc.resT}
+	fi := &fnInfo{name: coqName(q), needsFuel: fc.needsFuel, pools: fc.poolList(), resT: fc.resT}
+	if fc.sig != nil {
+		fi.nres = fc.sig.Results().Len()
+	}
+	for i, pv := range fc.params {
+		for _, io := range fc.inout {
+			if io == pv {
+				idx := i
+				if recv != nil {
+					idx = i - recv.NumFields()
+				}
+				fi.inout = append(fi.inout, idx)
+			}
+		}
+	}
+	t.done[q] = fi
 }
